@@ -18,7 +18,7 @@ def witness : List SLabel :=
    .caller 0, .caller 1,                       -- test-and-set: the first wins, the second returns
    .caller 0, .caller 0,                       -- first: quit event, suspended := true
    .caller 0, .caller 0, .termReply, .parser, .parser, .parser, .parser,   -- first: signal, DA1; parser exits
-   .inputRecv,                                 -- the input goroutine returns
+   .input .recv,                               -- the input goroutine returns
    .caller 0, .caller 0]                       -- first: WaitClose returns, close(chQuit)
 
 theorem no_double_close :
